@@ -40,17 +40,17 @@ EXHAUSTIVE = {"quick": False, "thorough": False}
 EXHAUSTIVE_PART = ""
 FLOORS = {
     "quick": {"atoms.forward": 600, "ndens.block": 600, "param.integrated.total": 600, "param.integrated.block": 3000, "param.averaged.block": 3000,
-              "param.constant": 150, "param.peak.block": 1500, "param.unset": 300, "roundtrip.atoms": 300, "roundtrip.integrated": 300,
-              "interval.partition": 3000, "blockAtElevation": 1500, "setBlockMesh": 200, "hook:Assembly.getBlocksBetweenElevations": 8000,
+              "param.constant": 150, "param.peak.block": 1500, "param.unset": 300, "roundtrip.atoms": 200, "roundtrip.integrated": 300,
+              "interval.partition": 3000, "blockAtElevation": 1500, "setBlockMesh": 100, "hook:Assembly.getBlocksBetweenElevations": 8000,
               "filterMesh.post": 1500, "filterMesh.raise-iff": 1500, "average1D": 800, "resample.avg": 1500, "resample.sum": 1500,
               "reactor.convert.atoms": 60, "reactor.apply.params": 60, "commonmesh.average": 10, "commonmesh.decusp": 10},
     "thorough": {"atoms.forward": 12000, "ndens.block": 12000, "param.integrated.total": 12000, "param.integrated.block": 60000, "param.averaged.block": 60000,
-                 "param.constant": 3000, "param.peak.block": 30000, "param.unset": 6000, "roundtrip.atoms": 6000, "roundtrip.integrated": 6000,
-                 "interval.partition": 60000, "blockAtElevation": 30000, "setBlockMesh": 4000, "hook:Assembly.getBlocksBetweenElevations": 160000,
+                 "param.constant": 3000, "param.peak.block": 30000, "param.unset": 6000, "roundtrip.atoms": 4000, "roundtrip.integrated": 6000,
+                 "interval.partition": 60000, "blockAtElevation": 30000, "setBlockMesh": 2000, "hook:Assembly.getBlocksBetweenElevations": 160000,
                  "filterMesh.post": 30000, "filterMesh.raise-iff": 30000, "average1D": 16000, "resample.avg": 30000, "resample.sum": 30000,
                  "reactor.convert.atoms": 1000, "reactor.apply.params": 1000, "commonmesh.average": 150, "commonmesh.decusp": 150},
 }
-TIMEOUT = {"quick": 600, "thorough": 3600}
+TIMEOUT = {"quick": 900, "thorough": 7200}
 ASSUMPTIONS = [
     "block cross-section is uniform along a generated assembly (one pitch), so N*h conservation is atom conservation; checked per case, else unjudged",
     "a parameter's kind (integrated / averaged / peak) is read from its definition's declared ParamLocation, independently of ParamMapper",
@@ -67,10 +67,10 @@ REC = None  # recorder for ambient hooks
 
 def plan(tier, seed):
     q = tier == "quick"
-    out = [{"name": "asm%d" % i, "kind": "assemblies", "n": 110 if q else 2200} for i in range(8)]
-    out += [{"name": "rx%d" % i, "kind": "reactors", "n": 8 if q else 130} for i in range(3)]
+    out = [{"name": "asm%d" % i, "kind": "assemblies", "n": 150 if q else 3000} for i in range(8)]
+    out += [{"name": "rx%d" % i, "kind": "reactors", "n": 12 if q else 240} for i in range(3)]
     out += [{"name": "testrx", "kind": "testreactors", "n": 3 if q else 40}]
-    out += [{"name": "pure%d" % i, "kind": "pure", "n": 700 if q else 14000} for i in range(4)]
+    out += [{"name": "pure%d" % i, "kind": "pure", "n": 900 if q else 18000} for i in range(4)]
     return out
 
 
@@ -641,16 +641,16 @@ def blockmesh_case(rec, rng, i):
             newh = hs[k] * rng.uniform(.5, 1.8)
             nucs = list(b.getNuclides())
             at0 = np.array(b.getNuclideNumberDensities(nucs)) * b.getVolume()
-            m0 = b.getMass()
             b.setHeight(newh, conserveMass=True, adjustList=nucs)
             rec.hit("setHeight.conserve")
             at1 = np.array(b.getNuclideNumberDensities(nucs)) * b.getVolume()
             if b.getHeight() != newh or np.any(np.abs(at1 - at0) > TOLERANCES["conserve_rel"] * np.abs(at0) + 1e-40):
                 rec.violation("setHeight/conserveMass/atoms-not-conserved", "Block.setHeight(%r, conserveMass=True): atoms %r -> %r" % (newh, at0.tolist()[:4], at1.tolist()[:4]), w)
             frac = rng.uniform(.3, 1.7)
+            m1 = b.getMass()
             dm = b.adjustDensity(frac, nucs, returnMass=True)
             rec.hit("adjustDensity.mass")
-            m1, m2 = m0, b.getMass()
+            m2 = b.getMass()
             if abs((m2 - m1) - dm) > 1e-9 * max(abs(m1), abs(m2)):
                 rec.violation("adjustDensity/returned-mass-differs-from-mass-change", "adjustDensity(%r) returned %r, block mass changed by %r" % (frac, dm, m2 - m1), w)
             rec.case(["setHeight", kinds[k]], nontrivial=True)
